@@ -509,6 +509,6 @@ def classify_bincount(case):
 
 SUBCHECKS = [
     Subcheck("ids", ids_cases, check_ids, classify_ids, quick=1200, thorough=60000),
-    Subcheck("intersect", circle_cases, check_intersect, classify_intersect, quick=1500, thorough=60000),
-    Subcheck("bincount", bincount_cases, check_bincount, classify_bincount, quick=1500, thorough=80000),
+    Subcheck("intersect", circle_cases, check_intersect, classify_intersect, quick=1500, thorough=20000),
+    Subcheck("bincount", bincount_cases, check_bincount, classify_bincount, quick=1500, thorough=25000),
 ]
